@@ -333,9 +333,13 @@ def minimise(mod, spec, sig, isolated=True, budget=400):
     def same(out):
         return outcome_sig(out) == sig
 
+    hung = sig.startswith("process-hung")
+    if hung:
+        budget = min(budget, 12)  # every candidate that still hangs costs its whole timeout
+
     def test(s):
         if isolated:
-            return same(execute_isolated(mod, s, timeout=60))
+            return same(execute_isolated(mod, s, timeout=20 if hung else 60))
         try:
             res = execute_guarded(mod, s)
         except (InvalidSpec, HarnessError):
